@@ -11,6 +11,7 @@ import (
 	"flag"
 	"fmt"
 	"os"
+	"runtime"
 	"strings"
 	"time"
 
@@ -18,7 +19,9 @@ import (
 
 	"verif/bfs"
 	"verif/ev"
+	"verif/hpar"
 	"verif/libh"
+	"verif/mcx"
 	"verif/simunix"
 )
 
@@ -145,7 +148,96 @@ func dumpCheck(d disk.Disk, m *model) error {
 	return nil
 }
 
+// gcBarrier runs two garbage collections and waits for the finalizers of each: an object the
+// disk depends on but no longer references (an *os.File behind a raw descriptor, say) is
+// finalized here, not at some unpredictable later time.
+func gcBarrier() {
+	for i := 0; i < 2; i++ {
+		done := make(chan struct{})
+		s := new([16]byte)
+		runtime.SetFinalizer(s, func(*[16]byte) { close(done) })
+		s = nil
+		runtime.GC()
+		select {
+		case <-done:
+		case <-time.After(2 * time.Second):
+		}
+	}
+}
+
+// applyReal: the same histories on the real kernel (free-running build, no overlay): whatever the
+// implementation does outside golang.org/x/sys/unix (os.File, finalizers, its own caches) is in play;
+// a garbage collection with finalizers is forced after every operation.
+func applyReal(c cfg, path []int) bfs.Result {
+	dir, err := os.MkdirTemp(tmpRoot, "real")
+	if err != nil {
+		return bfs.Result{Err: fmt.Errorf("HARNESS %v", err)}
+	}
+	defer os.RemoveAll(dir)
+	img := dir + "/d.img"
+	m := &model{}
+	if l := priors[c.Prior].Len(c.N); l >= 0 {
+		os.WriteFile(img, filler(l), 0644)
+		m.img = filler(l)
+	}
+	d, err := disk.NewFileDisk(img, c.N)
+	if err != nil {
+		return bfs.Result{Err: fmt.Errorf("NewFileDisk: %v", err)}
+	}
+	m.open(c.N)
+	gcBarrier()
+	for _, oi := range path {
+		o := alphabet[oi]
+		switch o.K {
+		case "W":
+			if o.A >= m.n {
+				libh.Try(func() { d.Close() })
+				return bfs.Result{Skip: true}
+			}
+			if p := libh.Try(func() { d.Write(o.A, libh.Pat(o.P)) }); p != "" {
+				return bfs.Result{Err: fmt.Errorf("%s panicked: %s", o, p)}
+			}
+			copy(m.img[o.A*BS:], libh.Pat(o.P))
+		case "Barrier":
+			if p := libh.Try(func() { d.Barrier() }); p != "" {
+				return bfs.Result{Err: fmt.Errorf("Barrier panicked: %s", p)}
+			}
+		case "Reopen":
+			if p := libh.Try(func() { d.Close() }); p != "" {
+				return bfs.Result{Err: fmt.Errorf("Close panicked: %s", p)}
+			}
+			d, err = disk.NewFileDisk(img, o.N)
+			if err != nil {
+				return bfs.Result{Err: fmt.Errorf("reopen: %v", err)}
+			}
+			m.open(o.N)
+		}
+		gcBarrier()
+	}
+	err = dumpCheck(d, m)
+	cp := libh.Try(func() { d.Close() })
+	if err != nil {
+		return bfs.Result{Err: err}
+	}
+	if cp != "" {
+		return bfs.Result{Err: fmt.Errorf("Close panicked: %s", cp)}
+	}
+	// what is on disk after Close is what a later process sees
+	b, rerr := os.ReadFile(img)
+	if rerr != nil || string(b) != string(m.img) {
+		return bfs.Result{Err: fmt.Errorf("after Close the image file holds %d bytes that differ from the reference (%d bytes) (%v)", len(b), len(m.img), rerr)}
+	}
+	out := ""
+	if len(path) > 0 {
+		out = alphabet[path[len(path)-1]].K
+	}
+	return bfs.Result{Key: m.key(), Outcome: out}
+}
+
 func apply(c cfg, path []int) bfs.Result {
+	if hpar.Free {
+		return applyReal(c, path)
+	}
 	k, m := setupKernel(c)
 	d, err := disk.NewFileDisk("d.img", c.N)
 	if err != nil {
@@ -488,6 +580,32 @@ func main() {
 		return
 	}
 	js := jobs(*tier)
+	if hpar.Free {
+		// free-running real-kernel complement: the reopen histories only (no crash images, no fault injection)
+		acc := ev.NewAcc()
+		for _, j := range js {
+			if j.Kind != "bfs" || j.C.N > 2 || (j.C.Prior != 0 && j.C.Prior != 2 && j.C.Prior != 6) {
+				continue
+			}
+			c := j.C
+			c.Depth = 2
+			st, fails := bfs.Search(len(alphabet), c.Depth, start.Add(10*time.Minute), 5, func(p []int) bfs.Result { return apply(c, p) })
+			acc.Add("free_runs", st.Transitions)
+			for _, f := range fails {
+				var names []string
+				for _, oi := range f.Path {
+					names = append(names, alphabet[oi].String())
+				}
+				acc.Violate(ev.Violation{
+					Key:    fmt.Sprintf("C11/real-kernel/N%d/prior=%s/%s", c.N, priors[c.Prior].Name, strings.Join(names, ";")),
+					Msg:    fmt.Sprintf("real kernel, garbage collection forced after every operation: N=%d prior image %s, history [%s]: %v", c.N, priors[c.Prior].Name, strings.Join(names, "; "), f.Err),
+					Replay: map[string]any{"mode": "real", "cfg": c, "path": f.Path},
+				})
+			}
+		}
+		acc.EmitChild()
+		return
+	}
 	if ev.IsChild() {
 		i, n := ev.Shard()
 		acc := ev.NewAcc()
@@ -533,11 +651,35 @@ func main() {
 		acc.EmitChild()
 		return
 	}
-	acc, err := ev.RunSharded(0)
-	if err != nil {
-		fmt.Fprintln(os.Stderr, "harness error:", err)
-		os.Exit(3)
+	// the simulated-kernel parts need the implementation to reach the kernel through golang.org/x/sys/unix
+	seamOK := func() (ok bool) {
+		defer func() {
+			if recover() != nil {
+				ok = false
+			}
+		}()
+		k, _ := setupKernel(cfg{N: 1, Prior: 0})
+		d, err := disk.NewFileDisk("d.img", 1)
+		if err != nil || k.NCalls < 2 {
+			return false
+		}
+		d.Write(0, libh.Pat("A"))
+		d.Close()
+		return k.NCalls >= 4
+	}()
+	var acc *ev.Acc
+	if seamOK {
+		var err error
+		acc, err = ev.RunSharded(0)
+		if err != nil {
+			fmt.Fprintln(os.Stderr, "harness error:", err)
+			os.Exit(3)
+		}
+	} else {
+		acc = ev.NewAcc()
+		acc.NotExhaustive("the implementation does not open / write its image through golang.org/x/sys/unix: the simulated-kernel parts (reopen BFS, crash images, fault injection) cannot see it and were skipped; only the real-kernel pass ran")
 	}
+	mcx.RacePass(acc, "C11", *tier)
 	for _, v := range acc.Violations {
 		if strings.Contains(v.Msg, "HARNESS") {
 			fmt.Fprintln(os.Stderr, "harness error:", v.Msg)
@@ -546,7 +688,7 @@ func main() {
 	}
 	os.Exit(acc.Done(ev.Finish{
 		Prop: "C11", Tier: *tier, Level: "model_checking", Start: start,
-		Rule:        "(a) BFS over histories of Write(a,A|B) a<3, Barrier, Close+NewFileDisk(n) n in 0..3 from 7 prior image lengths x 4 sizes on the real FileDisk over simunix, byte-array reference, every block read back with ReadTo into a dirty buffer; every trace replayed on the real kernel. (b) all write/barrier histories up to the length bound: crash before every system call and at the end x every post-crash image (every metadata-journal prefix x every subset of unsynced page writes), reopen, each block must be the value at the last completed Barrier or a later written one. (c) every system-call instance of a fixed open/write/read/barrier history failing once with EIO and ENOSPC: the enclosing operation must panic or return the error",
+		Rule:        "(a) BFS over histories of Write(a,A|B) a<3, Barrier, Close+NewFileDisk(n) n in 0..3 from 7 prior image lengths x 4 sizes on the real FileDisk over simunix, byte-array reference, every block read back with ReadTo into a dirty buffer; every trace replayed on the real kernel. (b) all write/barrier histories up to the length bound: crash before every system call and at the end x every post-crash image (every metadata-journal prefix x every subset of unsynced page writes), reopen, each block must be the value at the last completed Barrier or a later written one. (c) every system-call instance of a fixed open/write/read/barrier history failing once with each of 16 errnos (EINTR may be answered by re-issuing the call): the enclosing operation must panic or return the error. (d) the reopen histories (depth 2, three prior images) once more on the real kernel with a -race build and a garbage collection with finalizers forced after every operation, the image file compared after Close",
 		Assumptions: []string{"crash model: fsync makes the file's data and all earlier metadata operations durable; unsynced page writes persist in any subset; metadata operations persist in order", "errno injection is simulated (no seccomp harness in the sandbox)", "short pwrite without errno is not judged"},
 	}))
 }
